@@ -36,6 +36,14 @@ def fsStep (ix : Idx) (toks : List String) : Idx × String :=
   | ["values"] => (ix, "[" ++ joinWith "," ((values ix).map toString) ++ "]")
   | ["items"] => (ix, "[" ++ joinWith "," ((items ix).map fun kv => hexN 8 kv.1 ++ ":" ++ toString kv.2) ++ "]")
   | ["clear"] => (clear ix, "ok")
+  | ["update", _kind, kvs] =>      -- update from a dict / another fsIndex holding k:v,k:v,…
+    let pairs := (kvs.splitOn ",").filterMap fun kv =>
+      match kv.splitOn ":" with
+      | [k, v] => (match natOfHex k, v.toNat? with | some k, some v => some (k, v) | _, _ => none)
+      | _ => none
+    (match update ix pairs with
+     | .ok ix' => (ix', "ok")
+     | .error e => (ix, errStr e))
   | ["minkey"] => (ix, match minKey ix none with | .ok m => hexN 8 m | .error e => errStr e)
   | ["maxkey"] => (ix, match maxKey ix none with | .ok m => hexN 8 m | .error e => errStr e)
   | ["minkey", k] =>
